@@ -612,6 +612,8 @@ class IPPO(MultiAgentRLAlgorithm):
         log_probs, rewards, dones, values = map(
             vectorize_experiences_by_agent, (log_probs, rewards, dones, values)
         )
+        # NOTE: read the rollout length before squeezing, a single-step rollout loses its time axis
+        num_steps = rewards.size(0)
         log_probs = log_probs.squeeze()
         rewards = rewards.squeeze()
         dones = dones.squeeze()
@@ -624,7 +626,6 @@ class IPPO(MultiAgentRLAlgorithm):
         # Bootstrapping returns using GAE advantage estimation
         dones = dones.long()
         with torch.no_grad():
-            num_steps = rewards.size(0)
             rewards = rewards.reshape(num_steps, -1)
             dones = dones.reshape(num_steps, -1)
             values = values.reshape(num_steps, -1)
